@@ -602,7 +602,7 @@ Proof.
         let got := firstn n (fdata f) in
         let rest := skipn n (fdata f) in
         let p' := mkPread (pr_slot p) (pr_want p) (pr_len p + Z.of_nat n) (got :: pr_chunks p) in
-        let s2 := set_pread s1 (Some p') in
+        let s2 := g_chunk (set_pread s1 (Some p')) got in
         let done := pr_len p' =? pr_want p in
         match rest with
         | [] => RStep s2 [f] done
@@ -624,14 +624,14 @@ Proof.
     assert (Hav1 : avail s1 = q_bytes (s_inq s1)).
     { unfold avail, cache_bytes. rewrite Hcl1, Hca1. reflexivity. }
     destruct (skipn n (fdata f)) as [|r rs] eqn:Esk.
-    + inversion HH; subst s' rel done. eexists. cbn [set_pread s_pread]. split; [reflexivity|].
-      unfold got; cbn [pr_chunks rev]; rewrite concat_app; cbn [concat]; rewrite app_nil_r. rewrite Hav, Hav1. unfold avail. cbn [set_pread s_closed s_cache s_inq cache_bytes].
-      rewrite Hcl1. unfold cache_bytes. cbn [set_pread s_cache]. rewrite Hca1. cbn [app].
+    + inversion HH; subst s' rel done. eexists. cbn [g_chunk set_g set_pread s_pread]. split; [reflexivity|].
+      unfold got; cbn [pr_chunks rev]; rewrite concat_app; cbn [concat]; rewrite app_nil_r. rewrite Hav, Hav1. unfold avail. cbn [g_chunk set_g set_pread s_closed s_cache s_inq cache_bytes].
+      rewrite Hcl1. unfold cache_bytes. cbn [g_chunk set_g set_pread s_cache]. rewrite Hca1. cbn [app].
       rewrite <- (firstn_skipn n (fdata f)) at 2. rewrite Esk, app_nil_r. rewrite <- app_assoc.
       split; [reflexivity|]. split; [|split; reflexivity].
-      intros f' Hf'. cbn [set_pread s_cache] in Hf'. rewrite Hca1 in Hf'. discriminate.
-    + inversion HH; subst s' rel done. eexists. cbn [set_cache set_pread s_pread]. split; [reflexivity|].
-      unfold got; cbn [pr_chunks rev]; rewrite concat_app; cbn [concat]; rewrite app_nil_r. rewrite Hav, Hav1. unfold avail. cbn [set_cache set_pread s_closed s_cache s_inq cache_bytes fdata].
+      intros f' Hf'. cbn [g_chunk set_g set_pread s_cache] in Hf'. rewrite Hca1 in Hf'. discriminate.
+    + inversion HH; subst s' rel done. eexists. cbn [g_chunk set_g set_cache set_pread s_pread]. split; [reflexivity|].
+      unfold got; cbn [pr_chunks rev]; rewrite concat_app; cbn [concat]; rewrite app_nil_r. rewrite Hav, Hav1. unfold avail. cbn [g_chunk set_g set_cache set_pread s_closed s_cache s_inq cache_bytes fdata].
       rewrite Hcl1. unfold cache_bytes. cbn [s_cache fdata].
       rewrite <- (firstn_skipn n (fdata f)) at 2. rewrite Esk. rewrite <- !app_assoc.
       split; [reflexivity|]. split; [|split; reflexivity].
@@ -654,7 +654,7 @@ Proof.
         let got := firstn n (fdata f) in
         let rest := skipn n (fdata f) in
         let p' := mkPread (pr_slot p) (pr_want p) (pr_len p + Z.of_nat n) (got :: pr_chunks p) in
-        let s2 := set_pread s1 (Some p') in
+        let s2 := g_chunk (set_pread s1 (Some p')) got in
         let done := pr_len p' =? pr_want p in
         match rest with
         | [] => RStep s2 [f] done
